@@ -38,6 +38,7 @@ V_ASSIGNS(zck->error_state, g_fpos, g_io_failed)
 V_ENSURES(__CPROVER_return_value == 1 || __CPROVER_return_value == 0 || __CPROVER_return_value == -1) /*@C12.seek_data.ret*/
 V_ENSURES(__CPROVER_return_value != 1 || whence != SEEK_SET || g_fpos[G_IX(zck->fd)] == (g_off_t)offset) /*@C12,C09,C14.seek_data.success_means_positioned*/
 V_ENSURES(__CPROVER_return_value == 1 || zck->error_state > 0) /*@C12.seek_data.failure_sets_error*/
+V_ENSURES(__CPROVER_return_value != -1 || V_OLD(zck->error_state) > 0) /*@C12.seek_data.minus_one_only_for_context_already_in_error*/
 V_ENSURES(__CPROVER_return_value != 1 || zck->error_state == V_OLD(zck->error_state)) /*@C12.seek_data.success_keeps_state*/
 V_ENSURES(__CPROVER_return_value == 1 || g_fpos[G_IX(zck->fd)] == V_OLD(g_fpos[G_IX(zck->fd)])) /*@C12.seek_data.position_kept_on_failure*/
 ;
